@@ -516,8 +516,7 @@ func runC12(c *Ctx, r *Report) {
 	justified := map[string]string{
 		"REFERENCE": "both operands go through Value(), which dereferences references (checked in R2)",
 		"REGISTER":  "both operands go through Value(), which copies registers to integers (checked in R2)",
-		"RETURN":    "ReturnValue is unwrapped by State.Eval before any operand reaches an operator",
-		"MACRO":     "macros live only in the separate macro environment and are never program values",
+		"RETURN":    "control objects never become data: rule C01.R7 (shared below) checks that no evalInternal result is stored or passed on without a RETURN test or State.Eval",
 	}
 	eachInstr(cfn, func(in ssa.Instruction) {
 		pn, ok := in.(*ssa.Panic)
@@ -619,6 +618,9 @@ func runC12(c *Ctx, r *Report) {
 		})
 		r.Check(sym, "C12.R5", ssaFuncName(tfn), "TypeEqual tests a == b", c.Pos(tfn.Pos()), "TypeEqual no longer contains the reflexive a == b test")
 	}
+	// shared C01.R7: tag RETURN never reaches Cmp because control objects never become data
+	r.Rule("C01.R7", "(shared) control objects (break/continue/return) are never stored as values, so the RETURN panic arm of Cmp is unreachable")
+	c.checkControlObjects(r, "C01.R7")
 	// shared C11.R2: the small map's linear search is the other user of the order
 	if !r.Sub {
 		r.Rule("C11.R2", "(shared) SmallMap.get compares (stored key, searched key) with Cmp on every iteration and stops on exactly 1 and 0")
@@ -802,7 +804,7 @@ func (c *Ctx) tokenTypeNames() map[int64]string {
 func init() {
 	register("C12", &propDef{
 		explain: "Structural rules on the comparator and all its users: every operator/min/max/sort/key-search delegates to object.Cmp with operands in order and interprets the result by a predicate whose truth set on {-1,0,1} is the expected one (evaluated exhaustively on that 3-point domain); every return of Cmp is confined to {-1,0,1}; operand roles are never mixed and one-sided comparisons are mirrored (antisymmetry by construction); no lossy numeric conversion feeds a comparison; explicit panic arms are only for tags no program value can carry; Equals = TypeEqual && Cmp==0. Transitivity as such is not decided: it follows from these for every arm except the mixed int/float one, which R3 reports. Also: helpers whose result Cmp returns are followed (three-valued returns, negation accepted), and a float-to-integer conversion inside the comparator must be dominated by -2^63 <= f < 2^63 with a strict upper bound. Shares C11.R2 (SmallMap.get is the other user of the order).",
-		assume:  []string{"cmp.Compare is a total order on its operand type (NaN ordered first, by its contract)", "the justification table for panic arms (REFERENCE/REGISTER via Value(), RETURN via Eval, MACRO never a program value)"},
+		assume:  []string{"cmp.Compare is a total order on its operand type (NaN ordered first, by its contract)", "the justification table for panic arms (REFERENCE/REGISTER via Value(), RETURN via C01.R7); a MACRO arm in the panic list is a violation: macro objects are visible as values inside macro bodies"},
 		run:     runC12,
 	})
 }
